@@ -11,6 +11,7 @@ import (
 )
 
 func oracleC06(c *CaseHist) *Failure {
+	defer runPrelude(c.Env)()
 	buf := &bytes.Buffer{}
 	var model []byte
 	type enc struct {
@@ -116,6 +117,13 @@ func genHistoryAny(rt *rapid.T, focus string) (*CaseHist, map[string]int) {
 	unread, consumed := 0, false
 	nops := rapid.IntRange(2, 9).Draw(rt, "nops")
 	var encIdx []int
+	if rapid.IntRange(0, 5).Draw(rt, "envknob") == 5 {
+		c.Env = append(c.Env, genEnvKnob(rt))
+		if Types[focus].DynIndex() >= 0 && rapid.Bool().Draw(rt, "envfail") {
+			c.Env = append(c.Env, PreOp{Kind: "encfail", Type: focus, K: rapid.SampledFrom([]int{0, 1, 28, 200}).Draw(rt, "failafter")})
+		}
+		st["process-setting-varied"]++
+	}
 	for i := 0; i < nops; i++ {
 		kinds := []string{"encode", "encode", "encode", "write", "consume", "consume", "drain"}
 		if len(encIdx) > 0 {
